@@ -240,8 +240,52 @@ def float_correspondence(outcome, tier, seed):
                                                       "compared": "the bytes xt writes for a MessagePack float64 translated to JSON, with the model's text plus a line break"}
 
 
+def float32_correspondence(outcome, tier, seed):
+    """serde_json's spelling of a binary32 (through xt: MessagePack float32 -> JSON) against JsonFloat32Model.json_f32 (RF cases)."""
+    rng = random.Random(seed + 3232)
+    vals = [0.0, -0.0, 1.0, -1.5, 0.1, 0.2, 0.3, 16777216.0, 16777217.0, 3.4028234663852886e38, 1.401298464324817e-45, 1.1754943508222875e-38,
+            1e-7, 9.999999974752427e-07, 1.5e-6, 5.894184e-6, 9.999999747378752e-06, 1e-5, 1.1e-5, 1e-4, 0.001, 123.456, 1e6, 1e9, 1e10, 1e12, 9.99999982e12,
+            1e13, 1.5e13, 1e14, 3e15, 9.99999986991104e15, 1.00000003318135e16, 1e17, 1e20, 1e30, 1e38, 3e38, 8.5e37, 1e-30, 1e-38, 1e-40, 1e-44]
+    vals += [float("1e%d" % e) for e in range(-45, 39)]
+    vals += [2.0 ** e for e in range(-149, 128, 3)]
+    pool = [struct.pack(">f", v) for v in vals] + [struct.pack(">f", -v) for v in vals[2:30]]
+    for _ in range(3000 if tier == "thorough" else 400):
+        b = rng.getrandbits(32)
+        if rng.random() < 0.5:
+            b = (b & ~(0xFF << 23)) | ((127 + rng.randint(-25, 55)) << 23)     # moderate exponents: the layouts without an exponent part
+        pool.append(struct.pack(">I", b))
+    pool += [bytes.fromhex(h) for h in ("7f800000", "ff800000", "7fc00000", "7f800001", "007fffff", "00800000", "00800001", "7f7fffff", "00000002", "80000001")]
+    seen, uniq = set(), []
+    for b in pool:
+        if b not in seen:
+            seen.add(b)
+            uniq.append(b)
+    pool = uniq
+    reqs = [{"id": i, "to": "json", "calls": [{"input": "ca" + b.hex(), "from": "msgpack", "mode": "slice"}]} for i, b in enumerate(pool)]
+    resps = common.harness_batch(reqs, timeout=1800, jobs=16)
+    model = common.run_driver_lines(["RF %dg %s" % (i, b.hex()) for i, b in enumerate(pool)], jobs=16)
+    layouts = {}
+    for i, b in enumerate(pool):
+        got = shared.session_result(resps[i])
+        st, _, mh = model.get("%dg" % i, "missing -").partition(" ")
+        mtxt = bytes.fromhex(mh).decode("ascii", "replace") if mh not in ("", "-") else ""
+        impl = bytes.fromhex(got[2]).decode("ascii", "replace") if got[0] == "ok" and got[2] not in ("", "-", None) else "%s %s" % (got[0], got[1][:100])
+        lay = ("null" if mtxt == "null" else "exponent" if "e" in mtxt else "leading zeros" if mtxt.lstrip("-").startswith("0.") else
+               "integer.0" if mtxt.endswith(".0") else "point inside")
+        layouts[lay] = layouts.get(lay, 0) + 1
+        if st == "notfound":
+            outcome.disagreements.append({"what": "the f32 spelling model's bounded search found no spelling for a finite binary32", "bits_hex": b.hex(), "implementation": impl})
+        elif impl != mtxt + "\n":
+            outcome.disagreements.append({"what": "MessagePack float32 -> JSON: the text xt writes differs from the model of serde_json's serialize_f32 / ryu's format32 (JsonFloat32Model.json_f32)",
+                                          "bits_hex": b.hex(), "input_hex": "ca" + b.hex(), "implementation": impl[:80], "model": mtxt[:80]})
+    outcome.evaluations += len(pool)
+    outcome.traces_validated += len(pool)
+    outcome.extra["float32_spelling_correspondence"] = {"values": len(pool), "layouts_of_the_model_output": layouts}
+
+
 def correspondence(outcome, tier, seed):
     float_correspondence(outcome, tier, seed)
+    float32_correspondence(outcome, tier, seed)
     rng = random.Random(seed + 2718)
     ins, kinds = inputs(rng, tier)
     reqs = []
